@@ -400,8 +400,12 @@ func Verif_C06_ops() {
 		}
 		n := verifNewNode(E, NF, typ)
 		keys := []string{"k1", "k2"}[:1+verifChoose("nkeys", 2)]
+		// each named key is cached or not (a write names the primary-key entry and the unique-index
+		// entry; only what was read before is in the cache)
 		for _, k := range keys {
-			verifRedis.data[verifSlot(k)] = verifEntry{verifEnc("ab"), 1}
+			if verifBool("cached") {
+				verifRedis.data[verifSlot(k)] = verifEntry{verifEnc("ab"), 1}
+			}
 		}
 		verifRedis.faults = true
 		// the request's own context, which ends when the request is over
